@@ -98,6 +98,98 @@ def property_search(cases, outs):
     return wit
 
 
+def program_stage(run, wits, broken):
+    """program level: one adversarial identifier at a time in a program that uses every kind of user-named entity; the emitted
+    Go must be accepted by the Go checker model and behave like the same program with plain names"""
+    sys.path.insert(0, os.path.dirname(os.path.abspath(__file__)))
+    import c02
+    import go2coq
+    import namegen
+    import rustdbg
+    import semrun
+
+    rng = run.sub_rng("c19-programs")
+    cs = namegen.cases(rng, 40 if run.tier == "quick" else 1500, full=run.tier != "quick")
+    st = {"programs": len(cs), "accepted": 0, "rejected": 0, "go_checker_clean": 0, "behave_like_plain_names": 0, "known_collisions": 0, "outside_model": 0}
+    root, paths = semrun.write_programs("c19n", [t for _, _, _, t in cs])
+    res = vlib.run_harness("compile", [{"path": p_, "dumps": ["go_dbg"], "timeout_ms": 20000} for p_ in paths], shards=vlib.NCPU)
+    known = {}
+    for k in run.known:
+        if k["replay"]["kind"] == "name-collision":
+            for tpl, role, nm in k["replay"]["cases"]:
+                known[(tpl, role, nm)] = k["id"]
+    hit = {}
+    fails = {}  # index -> description
+
+    def record(i, what):
+        fails.setdefault(i, what)
+
+    acc = []
+    for i, ((tpl, role, nm, t), r) in enumerate(zip(cs, res)):
+        if "panic" in r or r.get("timeout"):
+            record(i, "the compiler panicked or did not answer: %s" % str(r.get("panic", "timeout"))[:160])
+        elif r.get("ok"):
+            st["accepted"] += 1
+            acc.append(i)
+        else:
+            st["rejected"] += 1
+            if role is None:
+                broken.append(Broken("generator", "C19 program stage: the plain-named template %s is rejected" % tpl))
+    # the Go checker model, in batches: the code of the first finding of each program (0 = none)
+    per = 24
+    hdr = "From Goml Require Import Common.Base Sem.GoAst C02.GoCheck.\nOpen Scope N_scope.\n"
+    texts = []
+    for k0 in range(0, len(acc), per):
+        g = acc[k0 : k0 + per]
+        texts.append(hdr + "".join("Definition f%d := %s.\n" % (i, go2coq.file(rustdbg.parse(res[i]["dumps"]["go_dbg"]))) for i in g)
+                     + "Eval vm_compute in [%s].\n" % "; ".join("match go_wf f%d with [] => 0 | (_, (c, _)) :: _ => c end" % i for i in g))
+    codes = []
+    for o in vlib.coq_eval_many("c19n", texts, timeout=1500):
+        codes += vlib.parse_nat_list(o)
+    if len(codes) != len(acc):
+        raise Broken("coq-output", "C19 program stage: %d checker results for %d programs" % (len(codes), len(acc)))
+    for i, code in zip(acc, codes):
+        if code:
+            record(i, "Go would reject the emitted program: %s" % c02.CODES.get(code, code))
+        else:
+            st["go_checker_clean"] += 1
+    # behaviour under the Go model, compared with the plain-named program of the same template
+    outs = semrun.go_outputs("c19p", [paths[i] for i in acc], per=16)
+    plain = {cs[i][0]: o for i, o in zip(acc, outs) if cs[i][1] is None}
+    for i, o in zip(acc, outs):
+        ref = plain.get(cs[i][0])
+        if ref is None or o.get("status") != "ok" or ref.get("status") != "ok":
+            st["outside_model"] += 1
+            continue
+        e = o.get("ending", "").replace("GoSem.", "")
+        ref = dict(ref, ending=ref.get("ending", "").replace("GoSem.", ""))
+        if e.startswith("EStuck"):
+            record(i, "the emitted Go of the renamed program is not executable in the Go model (undefined, shadowed or ill-typed name)")
+        elif e.startswith("EUnsupported") or e.startswith("EFuel"):
+            st["outside_model"] += 1
+        elif o["stdout"] == ref["stdout"] and e.split()[0:1] == ref.get("ending", "").split()[0:1]:
+            st["behave_like_plain_names"] += 1
+        else:
+            record(i, "the renamed program behaves differently from the program with plain names (prints %r, plain names print %r)" % (o["stdout"][:80], ref["stdout"][:80]))
+    for i, what in sorted(fails.items()):
+        tpl, role, nm, t = cs[i]
+        roles, nms = role.split("+"), nm.split(",")
+        ks = [known.get((tpl, r_, n_)) for r_, n_ in zip(roles, nms)]
+        kid = next((k for k in ks if k), None)
+        if kid:
+            st["known_collisions"] += 1
+            hit.setdefault(kid, []).append("%s:%s=%s" % (tpl, role, nm))
+        else:
+            wits.append({"kind": "user identifier `%s` (role %s of template %s): %s" % (nm, role, tpl, what), "program": t, "go_text": res[i].get("go")})
+    for k in run.known:
+        if k["id"] in hit:
+            run.known_finding(k["id"], "%s: %s — still failing for %d listed choices, e.g. %s" % (k["id"], k["what"], len(hit[k["id"]]), ", ".join(hit[k["id"]][:4])))
+    import shutil
+
+    shutil.rmtree(root, ignore_errors=True)
+    return st
+
+
 def replay_known(run):
     for k in run.known:
         kid = k["id"]
@@ -172,6 +264,16 @@ def check(run):
         "goml identifiers follow the lexer regex [A-Za-z][A-Za-z_0-9]*",
     ]
     replay_known(run)
+    try:
+        run.cov["correspondence"]["programs_with_adversarial_names"] = program_stage(run, wits, broken)
+    except Broken as b:
+        broken.append(b)
+    run.cov["rule"] += (
+        "; program level: a program with a struct, enum, trait, impl, inherent method, functions, parameters, locals, a closure, a tuple and a trait object "
+        "(with and without Vec/Ref/string runtime helpers) in which ONE user identifier at a time is replaced by a Go keyword, a Go predeclared identifier, a runtime helper name, "
+        "a compiler temporary (t12, x0, mtmp1, ret5, ...), a name ending in `main`, a name of the shape of a mangled local (vq__8) or the name of a helper the compiler generates from the other names "
+        "(dyn__Tr__wrap__S__m, closure_env_c_0, Tuple2_int32_S, a variant's name), plus random pairs of such choices: when accepted, the emitted Go must pass the Go checker model (go_wf) and behave like the plain-named program under Sem/GoSem.v"
+    )
     if wits:
         for w in wits[:3]:
             w["replay_cmd"] = "echo '<json array of code points>' | _build/cargo/debug/gomlv go-ident"
